@@ -378,3 +378,17 @@ def decide(ctx: Ctx, proof: dict, rule: str, search=None, extra=None, assumption
         status, violations = 1, 1
     write_evidence(ctx, proof, rule, extra=extra, violations=violations, assumptions=assumptions)
     return status
+
+
+def guarded_iter(it, on_error):
+    """iterate `it`; an exception raised by the code under test while producing the next item is reported, not propagated"""
+    it = iter(it)
+    while True:
+        try:
+            item = next(it)
+        except StopIteration:
+            return
+        except Exception as exc:  # pylint: disable=broad-except
+            on_error(exc)
+            return
+        yield item
